@@ -280,8 +280,8 @@ theorem kw_q (s : Str) : kw (s ++ s%"?") = s ++ s%"?" := by
 /-- **newtype-variant payload**: printed as the (keyword-escaped) translation of the payload
 type, so `Option<T>` gives `T?` (`formatType_option`, `kw_q`); the `optional` flag of the payload
 (which selects the `decodeNil` fallback) is `is_optional()` -/
-theorem payload {cfg : Cfg} {e : RustEnum} {id : Id} {cs : List Str} {ty : RustType} {st st' : St} {c : EnumCase}
-    (h : algebraicCase cfg e (.tuple id cs ty) st = .ok (c, st')) :
+theorem payload {U : UnicodeOps} {cfg : Cfg} {e : RustEnum} {id : Id} {cs : List Str} {ty : RustType} {st st' : St} {c : EnumCase}
+    (h : algebraicCase U cfg e (.tuple id cs ty) st = .ok (c, st')) :
     ∃ t, c.payload = some ⟨kw t, ty.isOptional⟩ ∧ formatType cfg e.genericTypes ty st = .ok (t, st') := by
   unfold algebraicCase at h
   simp only at h
